@@ -284,6 +284,10 @@ struct MState {
     /// an ERR handler whose last command fails with 4 is installed (under errexit the shell
     /// then ends inside the handler with that status, as in bash)
     err_failing: Option<u8>,
+    /// the installed failing handler only has its failing command the first time it ever runs
+    /// in the session (the sourced file guards it with a variable)
+    err_failing_oneshot: bool,
+    err_oneshot_used: bool,
     in_func: bool,
 }
 
@@ -317,8 +321,14 @@ impl Model {
             if let Some(m) = st.err_exit {
                 return Flow::Terminated(Known::Exactly(m));
             }
-            if let (Some(hs), true) = (st.err_failing, st.errexit) {
-                return Flow::Terminated(Known::Exactly(hs));
+            if let Some(hs) = st.err_failing {
+                let fails_now = !st.err_failing_oneshot || !st.err_oneshot_used;
+                if st.err_failing_oneshot {
+                    st.err_oneshot_used = true;
+                }
+                if fails_now && st.errexit {
+                    return Flow::Terminated(Known::Exactly(hs));
+                }
             }
         }
         if s != 0 && st.errexit {
@@ -498,6 +508,7 @@ impl Model {
                         ErrHandler::SourcesFailing | ErrHandler::SubstFailingE => Some(3),
                         _ => None,
                     };
+                    st.err_failing_oneshot = *h == ErrHandler::SourcesFailing;
                 }
                 Flow::Continue
             }
@@ -552,7 +563,7 @@ pub struct Expected {
 
 pub fn expected(case: &Case) -> Expected {
     let mut m = Model { next: 0, events: vec![], stdout: String::new(), inexact_status: false, execd: false };
-    let mut st = MState { status: 0, exit_trap: None, errexit: false, depth: 0, err_exit: None, err_failing: None, in_func: false };
+    let mut st = MState { status: 0, exit_trap: None, errexit: false, depth: 0, err_exit: None, err_failing: None, err_failing_oneshot: false, err_oneshot_used: false, in_func: false };
     let f = m.block(&case.program, &mut st, true, false);
     let term_status = match f {
         Flow::Terminated(Known::Exactly(s)) => Some(s),
